@@ -27,7 +27,7 @@ RULES = [  # (file regex, enclosing-fn regex, checks)
     (r"src/scan\.rs$", r"", ["C02", "C03"]),
     (r"src/sampler\.rs$", r"", ["C16"]),
     (r"pwm/dist\.rs$", r"", ["C11", "C17"]),
-    (r"pwm/mod\.rs$", r"discrete|Discrete|scale|unscale", ["C08", "C02", "C03"]),
+    (r"pwm/mod\.rs$", r"discrete|Discrete|^scale$|^unscale$", ["C08", "C02", "C03"]),
     (r"pwm/mod\.rs$", r"reverse_complement", ["C10", "C09"]),
     (r"pwm/mod\.rs$", r"", ["C09", "C10", "C08", "C01"]),
     (r"src/abc\.rs$", r"", ["C05", "C09", "C10"]),
